@@ -252,4 +252,20 @@ func H02() {
 	vAssert(p.String() == pw, "String() is not the concatenation of the tokens")
 	vAssert(p.Entropy == r.Entropy(), "Password.Entropy differs from the recipe's Entropy()")
 	vSample("password", p.String())
+	if vParam("again", 0) == 1 {
+		// a password stays what it was when further passwords are generated
+		saved := make([]string, L)
+		for j := range saved {
+			saved[j] = toks[j].Value()
+		}
+		r.Generate()
+		other := CharRecipe{Length: L, AllowChars: "xyz"}
+		other.Generate()
+		now := p.Tokens()
+		vAssert(len(now) == L, "a returned password changed length when another password was generated")
+		for j := range saved {
+			vAssert(now[j].Value() == saved[j], "a returned password changed when another password was generated (its tokens alias reused memory)")
+		}
+		vReach("generated-again")
+	}
 }
